@@ -50,7 +50,7 @@ def run_scenarios(job):
     """worker: one history prefix, then abort scenarios branching from copies of the workspace"""
     from gen import buildsim as bs
     r = random.Random(job["key"])
-    rec = {"key": job["key"], "scenarios": [], "prefix": [], "truncated": False}
+    rec = {"key": job["key"], "scenarios": [], "prefix": [], "truncated": False, "n_chains": job.get("n_chains", 2)}
     if time.time() > job["deadline"]:
         rec["truncated"] = True
         return rec
@@ -124,27 +124,31 @@ def run_scenarios(job):
         for kind, name, path in faults:
             for mode in ("exit", "kill", "killbob"):
                 plans.append([("fault", kind, name, mode, path)])
-        r.shuffle(plans)
+        rp = random.Random(job["key"] + "/plans")
+        rc = random.Random(job["key"] + "/chains")
+        rp.shuffle(plans)
         if job.get("max_plans"):
             # keep the cuts that follow a workspace modification first: they are the interesting ones
             hot = [p for p in plans if p[0][0] == "fault" or (p[0][0] == "cut" and p[0][1] >= 2 and
                    resR["log"][p[0][1] - 2][0] in ("emptyDir", "run", "mkDir", "setAttic"))]
-            r.shuffle(hot)
+            rp.shuffle(hot)
             rest = [p for p in plans if p not in hot]
             plans = (hot + rest)[:job["max_plans"]]
         chains = []
         for _ in range(job.get("n_chains", 2)):
-            m = r.choice([2, 2, 3])
-            chains.append([("cut", r.randrange(1, T + 1)) if r.random() < 0.7 or not faults else
-                           ("fault",) + tuple(r.choice(faults)[:2]) + (r.choice(["exit", "kill", "killbob"]), None)
+            m = rc.choice([2, 2, 3])
+            chains.append([("cut", rc.randrange(1, T + 1)) if rc.random() < 0.7 or not faults else
+                           ("fault",) + tuple(rc.choice(faults)[:2]) + (rc.choice(["exit", "kill", "killbob"]), None)
                            for _ in range(m)])
         for n, plan in enumerate(plans + chains):
             if job.get("only") is not None and n not in job["only"]:
                 continue
+            if job.get("only_plan") is not None and [list(p) for p in plan] != job["only_plan"]:
+                continue
             if time.time() > job["deadline"]:
                 rec["truncated"] = True
                 break
-            sr = random.Random("%s/%d" % (job["key"], n))
+            sr = random.Random("%s/%s" % (job["key"], bs.json.dumps([list(p) for p in plan])))
             sim = sim0
             shutil.rmtree(W, ignore_errors=True)
             _copytree(saved, W)
@@ -239,6 +243,7 @@ def judge(ctx, rec):
     for sc in rec["scenarios"]:
         ab = sc["invs"][0]
         case = {"key": rec["key"], "n_prefix": rec.get("n_prefix"), "kinds": rec.get("kinds"), "scenario": sc["n"],
+                "n_chains": rec.get("n_chains", 2),
                 "plan": sc["plan"], "follow": sc["follow"], "develop": rec.get("develop"), "edits": rec.get("edits")}
         ctx.case((rec["key"], sc["plan"], sc["follow"]), nontrivial=len(ab["log"]) > 0,
                  sample={"key": rec["key"], "plan": sc["plan"], "follow": sc["follow"], "ops_before_cut": len(ab["log"])})
@@ -349,10 +354,10 @@ def correspond(ctx):
 
 def replay(ctx, case):
     job = dict(repo=ctx.repo, tmp=ctx.tmp, key=case["key"], n_prefix=int(case["key"].rsplit("-", 1)[1]) % 3,
-               deadline=time.time() + 900, max_plans=0, n_chains=6, kinds=case.get("kinds"))
+               deadline=time.time() + 900, max_plans=0, n_chains=case.get("n_chains", 2), kinds=case.get("kinds"),
+               only_plan=case["plan"])
     rec = run_scenarios(job)
-    rec["scenarios"] = [sc for sc in rec["scenarios"] if sc["plan"] == case["plan"] and sc["follow"] == case["follow"]] \
-        or rec["scenarios"]
+    rec["n_prefix"] = None
     judge(ctx, rec)
 
 
